@@ -41,6 +41,7 @@ def run(ctx):
         nobs = rng.randint(2, 5)
         obs = []
         cv = pe.cov_Obs([1.5, -0.5], [[0.25, 0.0625], [0.0625, 0.5]], "cvC")
+        cva, cvz = pe.cov_Obs(0.7, 0.09, "cvA"), pe.cov_Obs(-1.2, 0.16, "cvZ")      # further external inputs, shared by SOME observables only
         for k in range(nobs):
             mode = rng.choice(["same", "same", "subset_prefix", "subset_random", "superset", "overlap", "missing_rep", "other_ensemble", "twin_gaps"])
             if mode == "twin_gaps":
@@ -62,6 +63,11 @@ def run(ctx):
                 o = o + cv[1] * 2
             elif r < 0.35:
                 o = cv[0] * 3 + cv[1]
+            # partially overlapping sets of covariance inputs: names sorting before and after the shared one
+            if rng.random() < 0.3:
+                o = o + cva * rng.choice([0.5, -1.5])
+            if rng.random() < 0.3:
+                o = o + cvz * rng.choice([0.25, 2.0])
             if obs and rng.random() < 0.25:
                 o = o + obs[0] * 0.5          # strong correlation with the first
             try:
